@@ -160,9 +160,13 @@ def partial_classes(rng, log):
 
     def make(base, tag):
         handled = set(rng.sample(kinds, rng.randint(0, len(kinds) - 1)))
+        # either an empty handler table of its own, or (documented way to customise a default renderer) a COPY of the
+        # default table in which some handlers are then replaced
+        copied = base is not BaseRenderer and rng.random() < 0.5
 
         class Part(base):
-            model_renderers = {}          # its own, incomplete handler table
+            model_renderers = dict(base.model_renderers) if copied else {}
+            pv_copied_from = base if copied else None
 
             @classmethod
             def render_db(cls, db):
@@ -232,6 +236,23 @@ def check_configured(sh, doc, text, rng, via):
             if (what, id(el)) not in log:
                 sh.violation('route', f'configured:{kind}.{what}-not-routed:{via}',
                              f'{kind}.{what} was not rendered through the configured class (log: {len(log)} calls)', case)
+    # the project is replaced by itself (add of the current project): it stays attached and routed
+    if db.project is not None:
+        pr = db.project
+        try:
+            db.add(pr)
+            ok_ = True
+        except Exception:  # noqa
+            ok_ = False
+        if ok_ and db.project is pr:
+            log.clear()
+            try:
+                pr.dbml
+                sh.count('obs.routing_checks_after_readd')
+                if ('dbml', id(pr)) not in log:
+                    sh.violation('route', f'configured:project.dbml-not-routed-after-re-add:{via}', 'db.add(db.project): the project no longer renders through the configured class', case)
+            except Exception:  # noqa
+                pass
     # partial renderers
     plog = []
     PartS, PartD, hs, hd = partial_classes(rng, plog)
@@ -250,6 +271,13 @@ def check_configured(sh, doc, text, rng, via):
                 sh.violation('partial', f'partial:raises:{kind}.{what}:{type(e).__name__}', f'{e}', case)
                 continue
             want = f'<{what}:{type(el).__name__}>' if type(el) in handled else ''
+            cls_ = PartS if what == 'sql' else PartD
+            if type(el) not in handled and cls_.pv_copied_from is not None:
+                try:
+                    want = cls_.pv_copied_from.render(el)      # handler inherited from the copied default table
+                except Exception:  # noqa
+                    continue
+                sh.count('obs.partial_checks_copied_table')
             sh.count('obs.partial_checks')
             if got != want:
                 sh.violation('partial', f'partial:wrong-text:{kind}.{what}', f'got {got[:80]!r}, expected {want!r}', case)
